@@ -81,6 +81,24 @@ Theorem C13_multi_final : forall b plan st0 cs a st n,
 Proof. exact multi_final. Qed.
 Print Assumptions C13_multi_final.
 
+(* GetDeployStatus is not one read but two (store/*/deploy.go): the deployed
+   keys first, the markers second.  A reader whose first read sees state st1
+   and whose second read sees a LATER state st2 - any number of store calls of
+   any number of deployments in between - obtains torn_status st1 st2.  It
+   stays within the bounds relative to what was recorded when the reader
+   started, and it never exceeds prior + planned; against the later state it
+   undercounts by exactly the records added in between (so it can be below
+   recorded st2: the transient undercount).  The opposite read order breaks
+   the upper bound (DeployMultiProofs.swapped_reads_overcount). *)
+Theorem C13_multi_torn_read : forall b plan st0 cs1 cs2 a1 st1 a2 st2 n,
+  plan_wf plan st0 -> recorded st0 n <= status st0 n ->
+  mrun b plan (deployed st0) (mstart plan, st0) cs1 = Some (a1, st1) ->
+  mrun b plan (deployed st0) (a1, st1) cs2 = Some (a2, st2) ->
+  recorded st1 n <= torn_status st1 st2 n <= status st0 n + planned_on plan n
+  /\ torn_status st1 st2 n = status st2 n - (recorded st2 n - recorded st1 n).
+Proof. exact multi_torn_read. Qed.
+Print Assumptions C13_multi_torn_read.
+
 (* The etcd backend's "record + decrement" is a compare-value retry loop of
    several etcd requests (meta/etcd.go:BatchCreateAndDecr).  For any number n of
    concurrent callers on one marker holding k, any interleaving of their
